@@ -36,7 +36,15 @@ OPERATORS = ('neg',)
 
 
 def value(cname, k):
-    """k-th distinct element value of a class (k = 1..20)"""
+    """k-th distinct element value of a class (k = 1..20); k = 'I': the identity / zero element, k = 'P': an element of another
+    kind (half turn, pure translation, prismatic twist, real quaternion) - per-element branches must not be taken from element 0"""
+    if k == 'I':
+        return {'SO2': np.eye(2), 'SE2': np.eye(3), 'SO3': np.eye(3), 'SE3': np.eye(4), 'Quaternion': np.array([1.0, 0, 0, 0]), 'UnitQuaternion': np.array([1.0, 0, 0, 0]),
+                'Twist2': np.zeros(3), 'Twist3': np.zeros(6)}[cname].copy()
+    if k == 'P':
+        return {'SO2': ref.rot2(math.pi), 'SE2': ref.rt(np.eye(2), (3.0, -1.0)), 'SO3': ref.rotx(math.pi), 'SE3': ref.rt(np.eye(3), (3.0, -1.0, 2.0)),
+                'Quaternion': np.array([-2.0, 0, 0, 0]), 'UnitQuaternion': np.array([0.0, 0, 1.0, 0]), 'Twist2': np.array([1.0, 2.0, 0.0]),
+                'Twist3': np.array([1.0, 2.0, 3.0, 0, 0, 0])}[cname].copy()
     a = 0.17 * k + 0.05
     if cname == 'SO2':
         return ref.rot2(a)
@@ -224,7 +232,31 @@ def near_equal(ctx, cname):
         ctx.cell(site, 'near', shape, 'mixed' if len({bool(x) for x in singles}) > 1 else 'uniform')
 
 
+def mixed_binary(ctx, cname):
+    """binary operators on sequences whose elements are of different kinds (identity, half turn / pure translation / prismatic /
+    real quaternion at the first and at later positions): element i is still the single-valued operation on the i-th elements"""
+    sets = {1: [['I'], ['P'], [3]], 3: [['I', 4, 5], [2, 'I', 'P'], ['P', 3, 'I'], [2, 3, 'P']]}
+    for (opn, opf), (m, n) in itertools.product(OPS, ((1, 3), (3, 1), (3, 3))):
+        for (li, lk), (ri, rk) in itertools.product(enumerate(sets[m]), enumerate(sets[n])):
+            cid = 'C09/%s/%s/mixed/m=%d/n=%d/%d.%d' % (cname, opn, m, n, li, ri)
+            if not ctx.want(cid):
+                continue
+            site = '%s.%s' % (cname, {'*': 'mul', '/': 'div', '+': 'add', '-': 'sub', '==': 'eq', '!=': 'ne'}[opn])
+            P = dict(cls=cname, op=opn, m=m, n=n, mode='mixed')
+            M = max(m, n)
+            oks, singles = call(lambda: [opf(build(cname, [lk[i if m > 1 else 0]]), build(cname, [rk[i if n > 1 else 0]])) for i in range(M)])
+            if not oks:
+                continue        # the operator is not defined for one of the element pairs alone (e.g. division by a zero quaternion)
+            ctx.case(cid, key=cid)
+            ok, res = call(opf, build(cname, lk), build(cname, rk))
+            if not ok:
+                ctx.fail(cid, site, 'raises:' + type(res).__name__, P, '%s[%d] %s %s[%d] with elements of mixed kinds raised %r' % (cname, m, opn, cname, n, res))
+            else:
+                compare(ctx, cid, site, P, res, singles, M)
+
+
 def binary(ctx, cname):
+    mixed_binary(ctx, cname)
     near_equal(ctx, cname)
     aliased(ctx, cname)
     top = 6 if ctx.tier == 'quick' else 8
@@ -347,7 +379,7 @@ def accessors(cname):
 def unary(ctx, cname):
     for (an, f), M in itertools.product(accessors(cname), range(1, 6)):
         cid = 'C09/%s/acc/%s/M=%d' % (cname, an, M)
-        if not (ctx.want(cid) or (ctx.only and ctx.only.startswith(cid + '/hist='))):
+        if not (ctx.want(cid) or (ctx.only and ctx.only.startswith(cid + '/'))):
             continue
         ks = [2 + j for j in range(M)]
         site = '%s.%s' % (cname, an.split('/')[0])
@@ -370,6 +402,23 @@ def unary(ctx, cname):
             continue
         singles = [f(build(cname, [kk])) for kk in ks]
         compare(ctx, cid, site, P, res, singles, M)
+        # elements of different kinds in one object (identity, half turn / pure translation / prismatic) at the first and at a later position
+        if M >= 2:
+            for sk, pos in itertools.product(('I', 'P'), (0, 1, M - 1)):
+                ksm = list(ks)
+                ksm[pos] = sk
+                cidm = cid + '/mixed=%s@%d' % (sk, pos)
+                if not ctx.want(cidm):
+                    continue
+                oks, sing = call(lambda: [f(build(cname, [kk])) for kk in ksm])
+                if not oks:
+                    continue            # the accessor is undefined for that element alone (another property's matter)
+                ctx.case(cidm, key=cidm)
+                okm, resm = call(f, build(cname, ksm))
+                if not okm:
+                    ctx.fail(cidm, site, 'raises:' + type(resm).__name__, dict(P, mixed=sk, pos=pos), '%s on %d values with a %s element at %d raised %r' % (an, M, sk, pos, resm))
+                else:
+                    compare(ctx, cidm, site, dict(P, mixed=sk, pos=pos), resm, sing, M)
         # the same object reached through a history during which the accessor had already been used (item assignment over a
         # decoy, reverse of a reversed copy, append + pop): the M results are those of the values it holds NOW
         for tag, X in hist.variants(build(cname, ks), f, fresh=False):
